@@ -4,6 +4,7 @@
 import os, json, math
 import vf
 import c16_interact
+import c16_voronoi
 
 LEVEL = "proof"
 CLAIM = dict(cat="proof", design="§3 C16",
@@ -30,8 +31,8 @@ CLAIM = dict(cat="proof", design="§3 C16",
         "position, every changed mean intensity) on corpus + random photons (absorption in outermost cells heading outward / inward, starts on faces / edges / corners, axis aligned "
         "and nearly aligned rays, periodic wraps incl. absorption right after the wrap, targets at cell-wall partial sums +- 1 ulp, 1-cell-thick grids, vacuum cells; AMR: several "
         "refinement histories to depth 5, all periodicity flags), plus an exact-rational straight-line oracle for the property on every answer of the real code. "
-        "CORRESPONDENCE ONLY (exploration evidence, not proved): Octree overlap / closest searches and PointLocations closest / radius searches vs brute force. EXCLUDED: Voronoi grids "
-        "(incl. VoronoiDensityGrid::interact). PointLocations searches are also exercised with one compact corner cluster and a lattice of queries (searches that grow to their maximum range).",
+        "CORRESPONDENCE ONLY (exploration evidence, not proved): Octree overlap / closest searches and PointLocations closest / radius searches vs brute force. VoronoiDensityGrid (both grid types, 0-3 Lloyd iterations): location = nearest generator, volumes sum to the box, "
+        "per-cell path deposits = chords of the ray through the half-space cells, absorbed/escaped verdict; oracle on the generator positions the grid reports, no model of its traversal loop. PointLocations searches are also exercised with one compact corner cluster and a lattice of queries (searches that grow to their maximum range).",
    note="Positions of part (1) are lattice points at least as fine as the deepest cell; its correspondence runs on dyadic boxes where every binary64 operation of the code is exact. "
         "Traversal theorems are about exact real arithmetic; the binary64 instance is what is compared with the code (ExtrOCamlFloats extraction and the OCaml driver are trusted for the "
         "tie only); update_integrals is abstracted to the visit list + the hydrogen mean intensity (C16_cart_J_exact); get_optical_depth for HAS_HELIUM without VARIABLE_ABUNDANCES. "
@@ -799,6 +800,8 @@ def run(ck):
     cov = ck.coverage
     # traversal clauses (CartesianDensityGrid::interact / AMRDensityGrid::interact): own harness, own model driver
     tr = c16_interact.run_interact(ck, ck.c16_extracted)
+    # Voronoi grids (VoronoiDensityGrid: location, volumes, traversal) against the half-space definition of a Voronoi cell
+    nvor = c16_voronoi.run_voronoi(ck)
     if not ok3:
         ck.resolve_breaks_without_input()
         return
@@ -905,7 +908,7 @@ def run(ck):
                 found += 1
                 report(ci, why)
         ck.notes.append("search-on-break: oracle evaluated on %d traces of the real code, %d more fail" % (len(cases), found))
-    cov["evaluations"] = evals + (tr["evaluations"] if tr else 0)
+    cov["evaluations"] = evals + (tr["evaluations"] if tr else 0) + nvor
     cov["distinct_nontrivial"] = len(sigs) + (tr["distinct"] if tr else 0)
     cov["rule"] = ("evaluations = answers of the real code compared with the extracted model (one per enumerated AMR cell: key, level, box, volume, "
                    "key of its midpoint; one per refine_cell / get_key(position) / Morton key / Cartesian index map, containing cell, neighbour list, "
@@ -946,7 +949,7 @@ def run(ck):
         "property oracle of the traversal = exact-rational straight line through the exact-rational cell walls, tolerance 1e-11 x box scale + "
         "64 ulp / min|d_k| (conditioning of nearly axis aligned rays), optical depth within 1e-11; a start within that tolerance of a cell wall "
         "is accepted for either neighbour (the code's walls are binary64 numbers)",
-        "NOT COVERED: Voronoi grids incl. VoronoiDensityGrid::interact (C15), termination of the traversal with periodic boundaries / on AMR grids, "
+        "Voronoi grids: VoronoiDensityGrid is compared with the half-space definition of its cells (the definition C15's theorems are about) on sampled generator sets; its traversal loop is not modelled. NOT COVERED: termination of the traversal with periodic boundaries / on AMR grids, "
         "AMRGrid::get_key(level, position), create_cell on partially built trees, get_total_emission",
         "defect probes (default on, each in a child process): pointlocations_face_ulp, amr_face_ulp, cartesian_face_ulp, octree_single_position; "
         "AMRDensityGrid::get_largest_odd_factor(0) loops forever (invalid input, noted only)",
@@ -958,6 +961,8 @@ def replay(ck, rp):
     r = rp["replay"]
     if isinstance(r, dict) and r.get("part") == "interact":
         return c16_interact.replay_interact(ck, r)
+    if isinstance(r, dict) and r.get("part") == "voronoi":
+        return c16_voronoi.replay_voronoi(ck, r)
     ok3, _ = build(ck, need_model=False)
     if not ok3 or "ops" not in r:
         print("REPLAY: nothing to run")
